@@ -12,6 +12,7 @@ import (
 	"math/rand"
 	"os"
 	"path/filepath"
+	"runtime"
 	"runtime/debug"
 	"sort"
 	"strings"
@@ -309,8 +310,11 @@ func (c *Ctx) MergeChild(dir string) (found bool) {
 
 var (
 	wdActive atomic.Int64 // process CPU (ns) at the start of the current call, 0 = no call
+	wdWall   atomic.Int64 // wall clock (unix ns) at the start of the current call
 	wdName   atomic.Pointer[string]
 )
+
+const blockedWall = 60 * time.Second
 
 func processCPU() int64 {
 	var ru syscall.Rusage
@@ -329,6 +333,24 @@ func StartWatchdog(limit time.Duration, what string) {
 			start := wdActive.Load()
 			if start == 0 {
 				continue
+			}
+			// a call that is BLOCKED uses no CPU at all: if it has been in flight
+			// for a minute of wall time while the whole process used less than
+			// half a second of CPU, it waits for something that nobody in this
+			// single-purpose process will ever provide (e.g. a lock left locked)
+			if wstart := wdWall.Load(); wstart != 0 && time.Since(time.Unix(0, wstart)) > blockedWall && processCPU()-start < int64(500*time.Millisecond) {
+				name := "?"
+				if p := wdName.Load(); p != nil {
+					name = *p
+				}
+				short := name
+				if i := strings.Index(short, "("); i > 0 {
+					short = short[:i]
+				}
+				buf := make([]byte, 1<<16)
+				buf = buf[:runtime.Stack(buf, true)]
+				fmt.Fprintf(os.Stderr, "fatal error: call-blocked-forever in %s\n(%s has been in flight for %s using no CPU)\n%s\n", short, name, blockedWall, buf)
+				os.Exit(3)
 			}
 			if used := processCPU() - start; used > int64(limit) {
 				name := "?"
@@ -352,7 +374,8 @@ func CallBegin(name string) {
 	if c == 0 {
 		c = 1
 	}
+	wdWall.Store(time.Now().UnixNano())
 	wdActive.Store(c)
 }
 
-func CallEnd() { wdActive.Store(0) }
+func CallEnd() { wdActive.Store(0); wdWall.Store(0) }
